@@ -33,7 +33,7 @@ func init() {
 		r.floor("R5", 8)
 	}, checkC24)
 	register("C32", func(r *Report) {
-		r.Explanation = "Sibling comparison of every resolver site in the client library, the gateway and the CLI tools: (R1) ID -> name uses PredefinedTopics.GetTopicName(<own client id>, <the packet's topic ID>) for predefined IDs and DecodeShortTopic(<the packet's topic ID>) for short ones; name -> ID uses GetTopicID(<own client id>, name) and EncodeShortTopic(name) under IsShortTopic(name); no site swaps arguments or uses another function; (R2) 'own client id' is the same identity on both ends: the gateway's comes from the CONNECT packet's ClientID, the client's CONNECT ClientID comes from cfg.ClientID, which is also the identity of every client-side lookup, and the CLI tools look up with the ID they configure; (R3) the two lookup functions are mutually consistent (C05's rules, re-run here) and the short codec is a byte-exact bijection (C21-R6, re-run here); (R4) the gateway uses the results lawfully: the (topic-ID type, ID) pairing of PUBLISHes to the client (C02-R2) and the producers of the topic name of PUBLISHes to the broker (C01-R2), re-run here - a cache or another source in between is a violation. Not decided: that both ends were given the same configuration (the operator's responsibility)."
+		r.Explanation = "Sibling comparison of every resolver site in the client library, the gateway and the CLI tools: (R1) ID -> name uses PredefinedTopics.GetTopicName(<own client id>, <the packet's topic ID>) for predefined IDs and DecodeShortTopic(<the packet's topic ID>) for short ones; name -> ID uses GetTopicID(<own client id>, name) and EncodeShortTopic(name) under IsShortTopic(name); no site swaps arguments or uses another function; (R2) 'own client id' is the same identity on both ends: the gateway's comes from the CONNECT packet's ClientID, the client's CONNECT ClientID comes from cfg.ClientID, which is also the identity of every client-side lookup, and the CLI tools look up with the ID they configure; (R3) the two lookup functions are mutually consistent (C05's rules, re-run here) and the short codec is a byte-exact bijection (C21-R6, re-run here); (R4) the gateway uses the results lawfully: the (topic-ID type, ID) pairing of PUBLISHes to the client (C02-R2) and the producers of the topic name of PUBLISHes to the broker (C01-R2), re-run here - a cache or another source in between is a violation; (R5) the mapping the gateway looks up in is the configured one for the whole session: no session writes to it, directly or through an alias (C15-R2, re-run here). Not decided: that both ends were given the same configuration (the operator's responsibility)."
 		r.floor("R1", 8)
 		r.floor("R2", 3)
 		r.floor("R3", 18)
@@ -192,6 +192,7 @@ func checkC15(c *Ctx, r *Report) {
 			}
 		})
 	}
+	c.checkSharedMapAliases(r, "R2")
 	r.ok("R2", "shared-config-read-only", "-", fmt.Sprintf("%d stores to configuration structs examined (all at construction); no map update, Add/Merge, element store or in-place append on shared data in package gateway", nShared))
 	// which slices alias the configuration (for the record)
 	r.okTrivial("R2", "aliases", "-", "byte-slice fields considered shared: "+strings.Join(c.sharedSliceFields(), ", "))
@@ -777,6 +778,8 @@ func checkC32(c *Ctx, r *Report) {
 	// client, lawful producers of the topic name of PUBLISHes to the broker)
 	importRules(c, r, "C02", map[string]string{"R2": "R4"})
 	importRules(c, r, "C01", map[string]string{"R2": "R4"})
+	// R5: the gateway's mapping stays the configured one: no session writes to it, directly or through an alias (C15-R2)
+	importRules(c, r, "C15", map[string]string{"R2": "R5"})
 }
 
 // checkC32Sites: R1 and R2 of C32 (resolver sites and the identity they use).
